@@ -15,9 +15,9 @@ MC_Defects == {Scn.defects[i] : i \in 1..Len(Scn.defects)}
 
 \* pass 1 (simulation): stop at the first quiescent state and write its canonical results
 DumpExpected ==
-  ~Quiescent \/ (JsonSerialize(IOEnv.EXPECTED, [s |-> ToString(CanonResults)]) /\ FALSE)
+  ~Quiescent \/ (IOSerialize(CanonResults, IOEnv.EXPECTED, FALSE) /\ FALSE)
 
 \* pass 2 (exhaustive): every quiescent state has the same canonical results
-Expected == JsonDeserialize(IOEnv.EXPECTED).s
-Confluent == Quiescent => ToString(CanonResults) = Expected
+Expected == IODeserialize(IOEnv.EXPECTED, FALSE)
+Confluent == Quiescent => CanonResults = Expected
 =============================================================================
